@@ -51,7 +51,9 @@ CLAIMS = {
         "flooded with the buffer id or the frame and the ingress port; a destination on the ingress port gets an action-less "
         "flow-mod naming the buffer (never sent back); a destination known elsewhere gets ONE flow-mod with exactly one output "
         "action to the port learnt for it (10 s idle / 30 s hard) carrying the packet-in; in every branch a buffered "
-        "packet-in's buffer id is named in the single message sent.",
+        "packet-in's buffer id is named in the single message sent. ofp_flow_mod.pack with the packet-in as data is proved for "
+        "all frames and ports: a buffered packet travels as the flow-mod's buffer id, an unbuffered one follows behind a barrier "
+        "as a packet-out to OFPP_TABLE carrying the whole frame and the ingress port.",
    note="only the controller-side decision is proved here; delivery in a network is the composition with the datapath "
         "contracts C12 (actions / flood rules), C04 (flow-mod), C18 (buffers), C03 (lookup) - an argument, not a machine-checked "
         "lemma; table size bounded (reported so); ofp_match.from_packet, Connection.send and time are callees.",
@@ -247,11 +249,11 @@ for i in ids:
       "evidence_file": "evidence/%s.json" % i,
       "replay_cmd_template": "./check %s --replay {path}" % i,
       "engine": "pyvc",
-      "level_claimed": {"category": {"C19": "exploration", "C06": "other", "C07": "other", "C11": "other"}.get(i, "proof"),
+      "level_claimed": {"category": {"C19": "exploration", "C06": "other", "C07": "other"}.get(i, "proof"),
                         "text": c["text"], "design_ref": c["ref"]},
       "level_note": c["note"] + (" Evidence level 'other': every unit of this property is a bounded symbolic unit (values symbolic, "
                                   "shape fixed); its SMT-discharged obligations are reported as bounded_shape_obligations, not as "
-                                  "proof-level obligations." if i in ("C06", "C07", "C11") else ""),
+                                  "proof-level obligations." if i in ("C06", "C07") else ""),
       "technique": ("bounded stand-in only (native enumeration of the real functions against an independent oracle, bounds stated): no "
                     "contract within reach decides this property - not counted as proved") if i == "C19" else
                    "contract-based deductive verification: VCs generated from the real function ASTs (pyvc), discharged by z3/cvc5; bounded stand-ins where stated",
